@@ -34,12 +34,14 @@ impl EventLog {
         let mut writer = self.writer.lock().expect("event log mutex");
         #[cfg(feature = "verif")]
         rip_kernel::verif::point("log.append.locked", event.stream_id());
-        let line = serde_json::to_string(event)
+        let mut line = serde_json::to_string(event)
             .map_err(|err| io::Error::new(io::ErrorKind::InvalidData, err))?;
+        // Frame and terminator go out together: a frame larger than the writer's buffer is
+        // written straight through, and a separate newline would only follow at the flush.
+        line.push('\n');
         writer.write_all(line.as_bytes())?;
         #[cfg(feature = "verif")]
         rip_kernel::verif::point("log.append.after_body", event.stream_id());
-        writer.write_all(b"\n")?;
         #[cfg(feature = "verif")]
         rip_kernel::verif::point("log.append.after_nl", event.stream_id());
         writer.flush()?;
